@@ -269,6 +269,29 @@ fn shard_index_for(num_shards: usize, first_ancestor: usize) -> usize {
     }
 }
 
+/// Verification hook: the key range and the number of root children of every shard, and the shard
+/// a root child belongs to.
+#[cfg(feature = "verif-hooks")]
+pub(crate) fn verif_shard_regions(
+    num_shards: usize,
+) -> Vec<(nomt_core::trie::KeyPath, nomt_core::trie::KeyPath, usize)> {
+    shard_regions(num_shards)
+        .into_iter()
+        .map(|(region, count)| {
+            (
+                region.exclusive_min().min_key_path(),
+                region.exclusive_max().max_key_path(),
+                count,
+            )
+        })
+        .collect()
+}
+
+#[cfg(feature = "verif-hooks")]
+pub(crate) fn verif_shard_index_for(num_shards: usize, first_ancestor: usize) -> usize {
+    shard_index_for(num_shards, first_ancestor)
+}
+
 fn make_shards(num_shards: usize, page_cache_size: usize) -> Vec<CacheShard> {
     // page_cache_size is measured in MiB
     let cache_page_limit = (page_cache_size * 1024 * 1024) / PAGE_SIZE;
